@@ -329,18 +329,23 @@ def model_merge(tag, jobs):
     res = [("unsupp", "translator")] * len(jobs)
     for i, (defs, schemas) in enumerate(jobs):
         try:
-            e = "(show_mres (merge_all %s 40 %s))" % (tocoq.cdefs(defs), tocoq.clist(schemas, tocoq.cschema, "schema"))
+            L = tocoq.clist(schemas, tocoq.cschema, "schema")
+            e = ("(let L := %s in String.append (if forallb ofrag L then \"O\" else if forallb sfrag L then \"S\" else \"-\") "
+                 "(show_mres (merge_all %s 40 L)))" % (L, tocoq.cdefs(defs)))
         except (tocoq.Unsupported, KeyError, TypeError) as ex:  # noqa
             continue
         exprs.append(e)
         where.append(i)
     outs = vlib.coq_eval_strings(tag, MODEL_HEADER, exprs, shard=60) if exprs else []
+    frag = {}
     for i, o in zip(where, outs):
         o = re.sub(r'"%string$', "", o)
+        frag[i], o = o[0], o[1:]
         if o.startswith("ok:"):
             res[i] = ("ok", tocoq.unshow_json(o[3:]))
         else:
             res[i] = (o,)
+    model_merge.frag = frag
     return res
 
 
@@ -651,6 +656,10 @@ def run(ctx):
                         k1_bad.append({"definitions": comps[ci]["defs"],
                                        "schemas": [comps[ci]["branches"][i] for i in comps[ci]["perms"][pi]],
                                        "real": a, "model": b})
+                fr = collections.Counter(getattr(model_merge, "frag", {}).values())
+                ctx.coverage["k1_lists_inside_theorem_fragments"] = {
+                    "ofrag (C09_merge_all_obj_sound_partial applies)": fr.get("O", 0),
+                    "sfrag only (C09_merge_all_sound_partial applies)": fr.get("S", 0), "outside": fr.get("-", 0)}
                 ctx.coverage["k1_compared"] = n_cmp
                 ctx.coverage["k1_outside_model_fragment"] = n_uns
                 ctx.oblige("correspondence K1: Algo/Merge.v merge_all = verif::merge_all on %d permuted lists "
